@@ -294,7 +294,7 @@ def run_child(bindir, project, cache, timeout):
 
 
 def run_e2e(rep, tier, r, fail):
-    nproj = 2 if tier == "quick" else 24
+    nproj = 2 if tier == "quick" else 10
     projects = []
     tmp = tempfile.mkdtemp(prefix="c16_e2e_")
     for k in range(nproj):
